@@ -1,7 +1,7 @@
-\* MC: every clause on the session machine, 10 scenarios, free histories of 6 steps, lists of <= 3 bumps
+\* MC: every clause on the session machine, 10 scenarios, free histories of 5 steps, lists of <= 2 bumps
 CONSTANTS Variant = "code"
-          MaxSteps = 6
-          MaxLen = 3
+          MaxSteps = 5
+          MaxLen = 2
           Shape = "free"
           Scope = "thorough"
           Emitting = FALSE
